@@ -118,12 +118,72 @@ fn over_limit_values(run: &Run) {
     }
 }
 
+/// Wide transactions: 256, 257 and 300 inputs (nothing bounds the number of inputs; positions, counts and indices beyond 255 are
+/// where 8-bit conversions bite - seed C02-r12-2 stopped validating and adding up inputs after the 256th).  Balanced ones, ones
+/// whose outputs leave out what the inputs from position 256 on carry, and ones whose last input is a coin under a covenant
+/// that is not supplied.
+fn wide_transactions(run: &Run) {
+    use crate::stf::*;
+    use crate::world::*;
+    use melstructs::{CoinID, Denom, Transaction, TxKind};
+    let (_w, rootn) = root(NetID::Custom02, 0, false);
+    let eng = Engine::new(run);
+    let genesis_value = match rootn.model.coins.get(&CoinID::zero_zero()) {
+        Some(c) => c.coin_data.value.0,
+        None => return,
+    };
+    let mut outs1: Vec<_> = (0..254).map(|_| out_t(1, Denom::Mel)).collect();
+    outs1.push(out_t(genesis_value - 254, Denom::Mel));
+    let fund1 = tx_t(TxKind::Normal, vec![CoinID::zero_zero()], outs1, 0, vec![0x77]);
+    let mut outs2: Vec<_> = (0..253).map(|_| out_t(1, Denom::Mel)).collect();
+    outs2.push(out(cov_true_n(9).hash(), 5, Denom::Mel)); // the victim: its covenant is never supplied below
+    outs2.push(out_t(genesis_value - 254 - 253 - 5, Denom::Mel));
+    let fund2 = tx_t(TxKind::Normal, vec![fund1.output_coinid(254)], outs2, 0, vec![0x78]);
+    let mut node = Some(rootn);
+    for a in [Action::Open, Action::Batch { label: "funding: 507 coins of 1 MEL and a coin under another covenant".into(), txs: vec![fund1.clone(), fund2.clone()], expect_ok: true }, Action::Seal(None), Action::Open] {
+        node = match node.as_ref().map(|n| eng.step(n, &a)) {
+            Some(StepOut::Next(x)) => Some(x),
+            _ => None,
+        };
+    }
+    let open = match node {
+        Some(n) => n,
+        None => {
+            run.outcome("wide-transactions:set-up-not-accepted");
+            return;
+        }
+    };
+    let units: Vec<CoinID> = (0..254u8).map(|i| fund1.output_coinid(i)).chain((0..253u8).map(|i| fund2.output_coinid(i))).collect();
+    let victim = fund2.output_coinid(253);
+    let mut cases: Vec<(String, Transaction, bool)> = vec![];
+    for n in [255usize, 256, 257, 300] {
+        cases.push((format!("{} inputs of 1 MEL into one output of {}", n, n), tx_t(TxKind::Normal, units[..n].to_vec(), vec![out_t(n as u128, Denom::Mel)], 0, vec![]), true));
+        if n > 256 {
+            cases.push((format!("{} inputs of 1 MEL into one output of 256 (what the inputs from position 256 on carry is left out)", n), tx_t(TxKind::Normal, units[..n].to_vec(), vec![out_t(256, Denom::Mel)], 0, vec![]), false));
+        }
+        cases.push((format!("{} inputs of 1 MEL into one output of {}", n, n + 1), tx_t(TxKind::Normal, units[..n].to_vec(), vec![out_t(n as u128 + 1, Denom::Mel)], 0, vec![]), false));
+        let mut with_victim = units[..n - 1].to_vec();
+        with_victim.push(victim);
+        cases.push((format!("{} inputs, the last one a coin whose covenant is not supplied (balanced)", n), tx_t(TxKind::Normal, with_victim.clone(), vec![out_t(n as u128 - 1 + 5, Denom::Mel)], 0, vec![]), false));
+        cases.push((format!("{} inputs, the last one a coin whose covenant is not supplied (its value left out)", n), tx_t(TxKind::Normal, with_victim, vec![out_t(n as u128 - 1, Denom::Mel)], 0, vec![]), false));
+    }
+    for (name, tx, ok) in cases {
+        run.state();
+        match eng.step(&open, &Action::Batch { label: name.clone(), txs: vec![tx], expect_ok: ok }) {
+            StepOut::Next(_) => run.outcome("wide-transactions:accepted"),
+            StepOut::Rejected => run.outcome("wide-transactions:rejected"),
+            StepOut::Pruned => run.outcome("wide-transactions:engine-reported"),
+        }
+    }
+}
+
 pub fn run(run: &Run) {
     // batches that consume a coin twice (and their honest neighbours) with apply_tx_batch itself under loom: every parallel site,
     // every way of cutting the batch, every interleaving of what the validation threads share
     crate::loomrun::stf_interleavings(run, "C02", &["rivals", "shared-second-input", "faucet-spends-and-rival", "rivals-around-bystander", "chain", "chain-reversed"]);
     long_histories(run, run.thorough());
     over_limit_values(run);
+    wide_transactions(run);
     for sc in scenarios(run.thorough()) {
         sample_alphabet(run, &sc);
         let st = run_scenario(run, &sc, 3_000_000);
